@@ -87,6 +87,13 @@ Theorem side_preference_inside_head_refuted :
     lt32 (fst (ear_gains_b32 (Z32 1) (V32 0 0 0) Q_ID32 pos)) (snd (ear_gains_b32 (Z32 1) (V32 0 0 0) Q_ID32 pos)) = true.
 Proof. exact side_preference_inside_head_b32. Qed.
 
+Theorem side_preference_inside_head_refuted_R :
+  exists (d sL cL sR cR : R) (lp : vec3 R) (lq : quat R) (pos : vec3 R),
+    unitq lq /\ ears_ok sL cL sR cR /\ ears_outward sL cL /\ 0 <= d /\
+    - d < dot (v_sub pos lp) (xaxis lq) < 0 /\
+    fst (ear_gains_R d sL cL sR cR 1 lp lq pos) < snd (ear_gains_R d sL cL sR cR 1 lp lq pos).
+Proof. exact side_preference_inside_head_R_witness. Qed.
+
 (** Mirroring the emitter through the listener's median plane swaps the two gains. *)
 Theorem mirror_swap_R :
   forall (d sinL cosL sinR cosR s : R) (lp : vec3 R) (lq : quat R) (pos : vec3 R),
